@@ -83,13 +83,14 @@ type registration struct {
 	name      string
 	module    bool
 	pos       string
-	bind      aenv   // constants captured from a closure factory (scalar activations only)
-	why       string // why fn could not be resolved
+	bind      aenv        // constants captured from a closure factory (scalar activations only)
+	capt      *c18Capture // what the captured variables of a module activator made by a factory hold
+	why       string      // why fn could not be resolved
 }
 
 // C18 — activation functions.
 func C18(p *Prog, r *Run) {
-	r.Explanation = "Decided: (1) registry: every NodeActivationType constant is registered exactly once, scalar types with Register, module types with RegisterModule, names pairwise distinct, Register/RegisterModule fill the function map and both name maps consistently, and the miss path of all four lookups returns a non-nil error; (2) for the closure registered under each scalar constant, by abstract interpretation (interval x monotonicity x may-NaN, input domain [-1e300,1e300] split at the constants the closure tests): the result lies in the documented range, is finite and never NaN, and is monotonically non-decreasing for the sigmoid family, tanh, linear, clipped-linear and step, including left/right values at every breakpoint; a construct outside the transfer-function table makes the obligation undecided (fails); (3) module folds: multiply starts from 1 and multiplies every input, max/min fold every input with math.Max/Min starting from an identity of the whole domain (±Inf, ±MaxFloat64 or the first element). (4) closed form: every piece of every scalar closure has the algebraic normal form of its documented definition; (5) network.ActivateNode and ActivateModule touch the node(s) with the looked-up value only under err == nil of that lookup and hand the error on. The interpreter follows if/else chains, tagless switches, early returns and (re-)assigned locals of the closure flow-sensitively; a closure produced by a one-line factory with constant arguments is interpreted with the captured constants. A registered activation may be a function literal or a declared top-level function; calls of pure straight-line float helpers of the package are unfolded, the `L: for { ...; break L }` blocks of helpers inlined by the normalisation are followed, idioms (square, soft-sign) are recognised by value through locals (equal normal forms), and input pieces carry open/closed bounds so that a branch excluded by an earlier comparison contributes no piece. The lookups' error result is judged per way it is produced (direct returns and values merged into a single return). A registration is a Register/RegisterModule call with constant arguments, or one element of a local table: an array or slice literal of structs that is written only by the literal (constant indices, outside loops) and otherwise only read inside the function, iterated completely (counter from 0 in steps of 1 up to the table's length, no other exit, not nested, on every path to the return) by a loop whose body makes the call exactly once per iteration with fields of the element at the counter, read directly or through a once-assigned local copy; such a loop counts as one registration per element with the values the literal stores. A scalar activation whose body is definitions of fresh locals followed by `return h(args)` with h a branching float helper of the package is interpreted as h's body with each parameter bound to its (pure) argument expression. A module activator may run its fold in ONE library function whose result it stores into the returned slice: the start value and the inputs are then the arguments the activator passes, and an operation called through a function-valued parameter is the operation of the function passed (math.Max / math.Min, or a function whose body is one return of x*y / math.Max(x, y) / math.Min(x, y) of its two parameters); every return of that function must yield the accumulator."
+	r.Explanation = "Decided: (1) registry: every NodeActivationType constant is registered exactly once, scalar types with Register, module types with RegisterModule, names pairwise distinct, Register/RegisterModule fill the function map and both name maps consistently, and the miss path of all four lookups returns a non-nil error; (2) for the closure registered under each scalar constant, by abstract interpretation (interval x monotonicity x may-NaN, input domain [-1e300,1e300] split at the constants the closure tests): the result lies in the documented range, is finite and never NaN, and is monotonically non-decreasing for the sigmoid family, tanh, linear, clipped-linear and step, including left/right values at every breakpoint; a construct outside the transfer-function table makes the obligation undecided (fails); (3) module folds: multiply starts from 1 and multiplies every input, max/min fold every input with math.Max/Min starting from an identity of the whole domain (±Inf, ±MaxFloat64 or the first element). (4) closed form: every piece of every scalar closure has the algebraic normal form of its documented definition; (5) network.ActivateNode and ActivateModule touch the node(s) with the looked-up value only under err == nil of that lookup and hand the error on. The interpreter follows if/else chains, tagless switches, early returns and (re-)assigned locals of the closure flow-sensitively; a closure produced by a one-line factory with constant arguments is interpreted with the captured constants. A registered activation may be a function literal or a declared top-level function; calls of pure straight-line float helpers of the package are unfolded, the `L: for { ...; break L }` blocks of helpers inlined by the normalisation are followed, idioms (square, soft-sign) are recognised by value through locals (equal normal forms), and input pieces carry open/closed bounds so that a branch excluded by an earlier comparison contributes no piece. The lookups' error result is judged per way it is produced (direct returns and values merged into a single return); the outcome of the map lookup is known where it is tested directly or where a value merged under it is tested against nil (an error that is nil exactly on the edges where the key was found). A registration is a Register/RegisterModule call with constant arguments, or one element of a local table: an array or slice literal of structs that is written only by the literal (constant indices, outside loops) and otherwise only read inside the function, iterated completely (counter from 0 in steps of 1 up to the table's length, no other exit, not nested, on every path to the return) by a loop whose body makes the call exactly once per iteration with fields of the element at the counter, read directly or through a once-assigned local copy; such a loop counts as one registration per element with the values the literal stores. A scalar activation whose body is definitions of fresh locals followed by `return h(args)` with h a branching float helper of the package is interpreted as h's body with each parameter bound to its (pure) argument expression. A module activator may run its fold in ONE library function whose result it stores into the returned slice: the start value and the inputs are then the arguments the activator passes, and an operation called through a function-valued parameter is the operation of the function passed (math.Max / math.Min, or a function whose body is one return of x*y / math.Max(x, y) / math.Min(x, y) of its two parameters); every return of that function must yield the accumulator."
 	factory := p.Func(PkgM, "NewNodeActivatorsFactory")
 	regF := p.Func(PkgM, "NodeActivatorsFactory.Register")
 	regM := p.Func(PkgM, "NodeActivatorsFactory.RegisterModule")
@@ -110,7 +111,7 @@ func C18(p *Prog, r *Run) {
 			reg.constName = byVal[reg.constVal]
 		}
 		// function value: load of a package-level variable holding a closure (robust_c18.go)
-		reg.fn, reg.bind, reg.why = resolveActivation(p, fv, module)
+		reg.fn, reg.bind, reg.capt, reg.why = resolveActivation(p, fv, module)
 		if k, ok := nv.(*ssa.Const); ok && k.Value != nil && k.Value.Kind() == constant.String {
 			reg.name = constant.StringVal(k.Value)
 		}
@@ -195,17 +196,36 @@ func C18(p *Prog, r *Run) {
 			// a value merged into the returned one (`var err error; if !ok { err = ... }; return v, err`), with the
 			// branch outcomes known where it is chosen
 			errIdx := fn.Signature.Results().Len() - 1
+			loops := Loops(fn)
 			for _, lf := range c18ResultLeaves(fn, errIdx) {
 				ret := lf.Ret
 				found := false
 				isMiss := false
+				// the outcomes of the lookup known at this leaf: tested directly, or implied by a test of a merged value
+				// against nil (`v, err := <lookup or error>; if err != nil {...}`: robust_c18.go c18ImpliedGuards)
+				known := append([]Guard{}, lf.Guards...)
 				for _, g := range lf.Guards {
+					known = append(known, c18ImpliedGuards(g, loops)...)
+				}
+				seenHas := map[ssa.Value]map[bool]bool{}
+				infeasible := false
+				for _, g := range known {
 					if gt := tm.Of(g.Cond); gt.Op == "call" && gt.Name == "has" {
 						found = true
 						if !g.True {
 							isMiss = true
 						}
+						if seenHas[g.Cond] == nil {
+							seenHas[g.Cond] = map[bool]bool{}
+						}
+						seenHas[g.Cond][g.True] = true
+						if seenHas[g.Cond][!g.True] {
+							infeasible = true
+						}
 					}
+				}
+				if infeasible {
+					continue // the same lookup is known to have found and not found the key: this value never reaches this return
 				}
 				et := tm.Of(lf.Val)
 				if found && isMiss {
@@ -402,7 +422,7 @@ func C18(p *Prog, r *Run) {
 			fn := g.fn
 			// the accumulate loop: in the activator itself or in the one function it hands its inputs to
 			// (robust_c18.go c18FoldOf); start value, operation and operands are those of the activator either way
-			fd, whyF := c18FoldOf(fn)
+			fd, whyF := c18FoldOf(fn, g.capt)
 			if fd == nil {
 				r.Undecided("fold:"+kind, p.Pos(fn.Pos()), whyF)
 				continue
